@@ -97,6 +97,19 @@ def journals(work, tier):
         p = samples.journal(work, w)
         if p:
             out.append((w, os.path.basename(p)))
+    # journals derived from the 3-entry journal: long fields, XZ-compressed fields, an entry without MESSAGE, a multi-line MESSAGE
+    import journaledit
+    p = os.path.join(work, "u3.journal")
+    if os.path.exists(p):
+        base = open(p, "rb").read()
+        for name, blob in journaledit.variants(base):
+            fn = "v_%s.journal" % name
+            common.write_file(os.path.join(work, fn), blob)
+            try:
+                ref_entries(os.path.join(work, fn))
+                out.append(("v_" + name, fn))
+            except common.MachineryError:
+                common.log("[C09] journalctl does not read derived journal %s; skipped" % name)
     return out
 
 
@@ -243,7 +256,13 @@ def replay(path, build=True):
     r = json.load(open(path))["replay"]
     work = common.scratch_dir(PROP + "r")
     try:
-        p = samples.journal(work, r["journal"])
+        samples.journal(work, "u3")
+        if r["journal"].startswith("v_"):
+            import journaledit
+            for name, blob in journaledit.variants(open(os.path.join(work, "u3.journal"), "rb").read()):
+                common.write_file(os.path.join(work, "v_%s.journal" % name), blob)
+        else:
+            samples.journal(work, r["journal"])
         x = common.run_s4(r["args"], cwd=work, timeout=120)
         common.log("rc=%s stdout %d bytes, %d entries (by separator)" % (x.rc, len(x.out), x.out.count(oracle.SEPB)))
         common.log(x.out[:1000].decode("utf-8", "replace"))
